@@ -75,7 +75,9 @@ def run(ctx):
     en = tl.Enums()
     ctx.rule = ("geometries of 0..n atoms over all elements incl. Unknown and dummy atoms, coordinates from the boundary "
                 "set (±0, 7th-decimal ties, 1e-7, ±1e7, 1e15, NaN/inf), 1..5 frames (equal and unequal atom counts, "
-                "0-atom frames); every member and alias of DistanceUnit through the xyz and the mol2 reader; bundled and "
+                "0-atom frames); every member and alias of DistanceUnit through the xyz and the mol2 reader — through EVERY "
+                "entry point (load_/loads_/load_all_/loads_all_ of Molecule, Structure, CartesianGeometry, "
+                "ConformerEnsemble) and input kind (str path, Path, open stream, string); bundled and "
                 "foreign-style xyz texts ('*' atoms, lower-case symbols, CRLF, tabs, exponents). "
                 "Non-trivial: ≥1 atom with a non-zero coordinate; distinct by canonical hash.")
     ctx.assumptions += [
@@ -236,6 +238,98 @@ def run(ctx):
                 ask(f"read molecule ~ {num}/{den} {tl.hx(text2)}",
                     lambda resp, cm2=cm2, text2=text2, name=name: tl.mols_equal(cm2, tl.parse_read_response(resp), rel=1e-9, abs_=1e-12) or ctx.disagree(
                         f"loads_all_mol2(source_units={name}) differs from the model's toAngstrom", text2, tl.short_mols(cm2), tl.short_mols(tl.parse_read_response(resp))))
+
+    # ------------------------------------------------------------------ EVERY reader entry point x input kind x unit
+    # load_* / loads_* / load_all_* / loads_all_* of Molecule, Structure, CartesianGeometry, ConformerEnsemble, given a
+    # str path, a pathlib.Path, an open stream or a string, for xyz and mol2, with every member of DistanceUnit:
+    # all must give the geometry in Ångström (oracle) and agree with the model's conversion of the same text
+    classes = [("Molecule", ml.Molecule), ("Structure", ml.Structure), ("CartesianGeometry", ml.CartesianGeometry),
+               ("ConformerEnsemble", ml.ConformerEnsemble)]
+    work = ctx.scratch
+
+    def as_frames(obj):
+        if isinstance(obj, ml.ConformerEnsemble):
+            return [obj[j] for j in range(obj.n_conformers)]
+        return list(obj) if isinstance(obj, (list, tuple)) else [obj]
+
+    for name, num, den, val in unit_tab:
+        ref = UNIT_REF.get(name, val)
+        tol = lambda x, ref=ref: 1e-6 / ref + 1e-5 * abs(x)
+        for rep in range(1 if quick else 6):
+            ctx.check_deadline()
+            g1 = gen_geom_spec(rng, en, 5, False)
+            while len(g1["atoms"]) < 2:
+                g1 = gen_geom_spec(rng, en, 5, False)
+            g1["comment"] = "entry"
+            for a in g1["atoms"]:
+                a["d"] = 0
+                for k in "xyz":
+                    a[k] = round((rng.uniform() * 2 - 1) * rng.choice([1.0, 5.0, 30.0]), 4)
+            g2 = json.loads(json.dumps(g1))
+            for a in g2["atoms"]:
+                for k in "xyz":
+                    a[k] = round((rng.uniform() * 2 - 1) * 5.0, 4)
+            gs = [g1, g2]
+            objs = []
+            for g in gs:
+                gu = json.loads(json.dumps(g))
+                for a in gu["atoms"]:
+                    for k in "xyz":
+                        a[k] = a[k] * ref
+                objs.append(build_geom(en, gu, ml.Molecule))
+            for fmt in ("xyz", "mol2"):
+                text = "".join(getattr(o, "dumps_" + fmt)() for o in objs)
+                path = work / f"entry_{name}_{rep}.{fmt}"
+                path.write_text(text)
+                results = []      # (label, canonical frames, expected number of frames)
+                for cname, cls in classes:
+                    for meth, inputs in ((f"load_{fmt}", ("str-path", "Path", "stream")), (f"loads_{fmt}", ("string",)),
+                                         (f"load_all_{fmt}", ("str-path", "Path", "stream")), (f"loads_all_{fmt}", ("string",))):
+                        fn = getattr(cls, meth, None)
+                        if fn is None:
+                            continue
+                        for kind in inputs:
+                            label = f"{cname}.{meth}({kind}, source_units={name!r})"
+                            ctx.case(f"entry:{label}:{rep}", True)
+                            ctx.count(f"entry_point={cname}.{meth}({kind})")
+                            replay = {"kind": "entry-point", "call": label, "unit": name, "format": fmt, "text": text}
+
+                            def call(fn=fn, kind=kind):
+                                if kind == "str-path":
+                                    return fn(str(path), source_units=name)
+                                if kind == "Path":
+                                    return fn(Path(path), source_units=name)
+                                if kind == "stream":
+                                    with open(path, "rt") as f:
+                                        return fn(f, source_units=name)
+                                return fn(text, source_units=name)
+
+                            st, r = tl.limited(call)
+                            if st != "ok":
+                                ctx.violation("C08:unit-load-raises", f"{label} raised {type(r).__name__}: {r}", replay)
+                                continue
+                            fr = [tl.canon_geom(en, x) for x in as_frames(r)]
+                            want = 2 if ("_all_" in meth or cls is ml.ConformerEnsemble) else 1
+                            if len(fr) != want:
+                                ctx.violation("C08:frame-count", f"{label}: {len(fr)} frames returned, {want} expected", replay)
+                                continue
+                            for gi, f1 in zip(gs, fr):
+                                _unit_oracle(ctx, gi, [f1], name, label, replay, tol)
+                            results.append((label, fr, replay))
+                if fmt == "xyz":
+                    ask(f"xread {num}/{den} {tl.hx(text)}",
+                        lambda resp, results=results: [
+                            tl.frames_equal(fr, (tl.parse_frames_response(resp) if not resp.startswith("err") else [])[: len(fr)], rel=1e-9, abs_=1e-12, dummy=False)
+                            or ctx.disagree(f"{label} differs from the model's toAngstrom", rp, tl.short_frames(fr), resp[:300])
+                            for label, fr, rp in results])
+                else:
+                    def cmp_mol2(resp, results=results):
+                        mm = tl.parse_read_response(resp)
+                        mf = "err" if mm == "err" else [{"atoms": [{"e": a["e"], "d": 0, "x": a["x"], "y": a["y"], "z": a["z"]} for a in m["atoms"]]} for m in mm]
+                        for label, fr, rp in results:
+                            if mf == "err" or not tl.frames_equal(fr, mf[: len(fr)], rel=1e-9, abs_=1e-12, dummy=False):
+                                ctx.disagree(f"{label} differs from the model's toAngstrom", rp, tl.short_frames(fr), resp[:300])
+                    ask(f"read molecule ~ {num}/{den} {tl.hx(text)}", cmp_mol2)
 
     # ------------------------------------------------------------------ bundled and foreign-style texts
     texts = [(p.name, p.read_text()) for p in tl.bundled_files(common.REPO, ".xyz")]
